@@ -583,3 +583,23 @@ Proof.
     destruct (piece_spec_full _ _ _ _ _ _ _ _ Hc Hk Hd) as (Hk' & Hsplit & _).
     destruct (IH _ eq_refl Hb1 Hrest Hk') as (r & Hr). exists r. rewrite Hsplit, Hr, app_assoc. reflexivity.
 Qed.
+
+(** On the scripts the harness generates for readers that attach EOF to data
+    (chunks, optionally one final Eof event — [c16Clean]) the two carrier
+    notions coincide. *)
+Fixpoint clean_script (evs : list ev) : Prop :=
+  match evs with
+  | [] => True
+  | Chunk _ :: r => clean_script r
+  | Eof :: r => r = []
+  | Err _ :: _ => False
+  end.
+Lemma clean_ccar_rcar : forall evs C, clean_script evs -> ccar C evs -> rcar C evs.
+Proof.
+  induction evs as [|[bs|c|] r IH]; intros C Hcl (rest & -> & Hrest); cbn [clean_script content rcar fst snd] in *.
+  - rewrite (Hrest eq_refl). reflexivity.
+  - destruct (content r) as [c0 e0] eqn:Ec. cbn [fst snd] in *. exists (c0 ++ rest). rewrite <- app_assoc.
+    split; [reflexivity|]. apply IH; [exact Hcl|]. exists rest. rewrite Ec. auto.
+  - contradiction.
+  - subst r. rewrite (Hrest eq_refl). cbn. auto.
+Qed.
